@@ -34,6 +34,11 @@ pub struct Key {
     /// Finer than the behaviour of a correct book needs (which depends on queue order only) so
     /// that states whose hidden queue stamps differ relative to the clock are NOT merged.
     ages: Vec<u8>,
+    /// reload mode only: 0 = no snapshot reload among the last `reload_depth` operations of the
+    /// representative history, k > 0 = the k-th most recent operation was a reload. States reached
+    /// through a recent reload are kept apart so that every action (and the sweep) is also executed
+    /// on a book that has just been rebuilt from its snapshot.
+    reload_age: u8,
 }
 
 #[derive(Clone, Debug)]
@@ -69,6 +74,8 @@ pub enum AbsAct {
     PlaceDead { class: usize },
     Enable,
     Disable,
+    /// serialise, deserialise, continue on the reloaded object
+    Reload,
 }
 
 #[derive(Clone)]
@@ -84,6 +91,8 @@ pub struct Absx {
     pub with_redundant: bool,
     /// clock advance before each action is a choice in {0,+1} (C05) instead of always +1
     pub ties: bool,
+    /// > 0: snapshot reload is an action, and states within this many operations after a reload are kept apart
+    pub reload_depth: u8,
     pub tie_transitions: Arc<AtomicU64>,
     /// enumerate the actions of every state in reverse order (second sweep: BFS then settles on
     /// other representative histories for most keys)
@@ -94,9 +103,11 @@ pub struct Absx {
     /// vacuity guards counted on executed transitions (path-dependent facts cannot be `sometimes` properties of key-equal states)
     pub partial_head_cancels: Arc<AtomicU64>,
     pub crossing_modifies: Arc<AtomicU64>,
+    /// transitions executed on a book reloaded at most `reload_depth` operations earlier
+    pub after_reload: Arc<AtomicU64>,
 }
 
-fn key_of(m: &RefModel, bad: bool, ties: Option<usize>, with_dead: bool) -> Key {
+fn key_of(m: &RefModel, bad: bool, ties: Option<usize>, with_dead: bool, reload_age: u8) -> Key {
     let (trading, bids, asks) = m.live_key();
     let ages = match ties {
         None => vec![],
@@ -121,7 +132,7 @@ fn key_of(m: &RefModel, bad: bool, ties: Option<usize>, with_dead: bool) -> Key 
     } else {
         [false; 3]
     };
-    Key { trading, bids, asks, unplaced, dead, bad, ages }
+    Key { trading, bids, asks, unplaced, dead, bad, ages, reload_age }
 }
 
 fn dead_rep(m: &RefModel, class: usize) -> Option<usize> {
@@ -151,6 +162,7 @@ impl Absx {
             AbsAct::PlaceDead { class } => Op::Place { id: dead_rep(m, *class)?, ev: false },
             AbsAct::Enable => Op::Enable,
             AbsAct::Disable => Op::Disable,
+            AbsAct::Reload => Op::Reload { mode: 0 },
         };
         Some(Step { dt: dt as u64, op })
     }
@@ -162,7 +174,7 @@ impl Model for Absx {
 
     fn init_states(&self) -> Vec<AbsState> {
         let m = RefModel::new(self.profile.start_time, self.profile.tick, self.profile.start_trading);
-        vec![AbsState { key: key_of(&m, false, self.tie_cap(), self.with_redundant), hist: vec![], model: m }]
+        vec![AbsState { key: key_of(&m, false, self.tie_cap(), self.with_redundant, 0), hist: vec![], model: m }]
     }
 
     fn actions(&self, s: &AbsState, acts: &mut Vec<(u8, AbsAct)>) {
@@ -246,6 +258,9 @@ impl Absx {
         if self.with_toggles {
             out.push(if s.key.trading { AbsAct::Disable } else { AbsAct::Enable });
         }
+        if self.reload_depth > 0 && s.key.reload_age == 0 {
+            out.push(AbsAct::Reload);
+        }
     }
 
     fn step_state(&self, last: &AbsState, dt: u8, a: AbsAct) -> Option<AbsState> {
@@ -320,7 +335,15 @@ impl Absx {
                 }
             }
         }
-        Some(AbsState { key: key_of(&m2, bad, self.tie_cap(), self.with_redundant), hist, model: m2 })
+        let reload_age = match a {
+            AbsAct::Reload => 1,
+            _ if last.key.reload_age > 0 && last.key.reload_age < self.reload_depth => last.key.reload_age + 1,
+            _ => 0,
+        };
+        if reload_age > 0 {
+            self.after_reload.fetch_add(1, Ordering::Relaxed);
+        }
+        Some(AbsState { key: key_of(&m2, bad, self.tie_cap(), self.with_redundant, reload_age), hist, model: m2 })
     }
 
     fn props(&self) -> Vec<Property<Self>> {
@@ -344,6 +367,7 @@ pub struct ClosureResult {
     pub transitions: u64,
     pub cut: u64,
     pub max_depth: usize,
+    pub after_reload: u64,
     pub fails: BTreeMap<String, Witness>,
     pub guards_missing: Vec<String>,
     pub wall_s: f64,
@@ -359,6 +383,8 @@ pub fn closure(m: Absx, dfs: bool) -> ClosureResult {
     let with_modify = m.with_modify;
     let ties = m.ties;
     let tie_tr = m.tie_transitions.clone();
+    let after_reload = m.after_reload.clone();
+    let reload_depth = m.reload_depth;
     let b = m.checker().threads(util::n_threads());
     let (unique, generated, depth, found): (usize, usize, usize, Vec<&'static str>) = if dfs {
         let c = b.spawn_dfs().join();
@@ -383,6 +409,9 @@ pub fn closure(m: Absx, dfs: bool) -> ClosureResult {
     if ties && tie_tr.load(Ordering::Relaxed) == 0 {
         missing.push("a state holding two orders queued at one price with one timestamp".into());
     }
+    if reload_depth > 0 && after_reload.load(Ordering::Relaxed) == 0 {
+        missing.push("a transition on a reloaded book".into());
+    }
     let f = fails.lock().unwrap().clone();
     ClosureResult {
         unique,
@@ -390,6 +419,7 @@ pub fn closure(m: Absx, dfs: bool) -> ClosureResult {
         transitions: transitions.load(Ordering::Relaxed),
         cut: cut.load(Ordering::Relaxed),
         max_depth: depth,
+        after_reload: after_reload.load(Ordering::Relaxed),
         fails: f,
         guards_missing: missing,
         wall_s: t0.elapsed().as_secs_f64(),
@@ -407,6 +437,8 @@ pub struct ClosureCfg {
     pub ties: bool,
     /// number of grid prices (2 or 3)
     pub prices: usize,
+    /// snapshot reload as an action; states up to this many operations after a reload are kept apart (0 = no reloads)
+    pub reload_depth: u8,
 }
 
 /// Run the closure for a property's monitor set and fold the result into its outcome.
@@ -426,6 +458,8 @@ pub fn run_closure(out: &mut Outcome, monitors: &Monitors, c: &ClosureCfg, also_
         with_create: c.create,
         with_redundant: c.redundant,
         ties: c.ties,
+        reload_depth: c.reload_depth,
+        after_reload: Arc::new(AtomicU64::new(0)),
         tie_transitions: Arc::new(AtomicU64::new(0)),
         reversed: false,
         transitions: Arc::new(AtomicU64::new(0)),
@@ -441,9 +475,9 @@ pub fn run_closure(out: &mut Outcome, monitors: &Monitors, c: &ClosureCfg, also_
     );
     let mut rec = json!({
         "engine": "absx (stateright BFS closure)", "label": c.label, "caps": {"max_resting_per_side": c.max_rest, "max_volume": c.max_vol, "max_unplaced": 1, "grid_prices": c.prices.max(2)},
-        "actions": {"modify": c.modify, "toggles": c.toggles, "create_place": c.create, "redundant_requests_on_dead_classes": c.redundant, "clock_advance": if c.ties { "{0,+1} before every action; queue ages (clipped) are part of the key" } else { "+1 before every action" }},
+        "actions": {"modify": c.modify, "toggles": c.toggles, "create_place": c.create, "redundant_requests_on_dead_classes": c.redundant, "snapshot_reload": if c.reload_depth > 0 { format!("an action in every state; states within {} operations after a reload are kept apart and fully expanded", c.reload_depth) } else { "not among the actions".to_string() }, "clock_advance": if c.ties { "{0,+1} before every action; queue ages (clipped) are part of the key" } else { "+1 before every action" }},
         "unique_abstract_states": r.unique, "states_generated": r.generated, "transitions_executed_on_real_code": r.transitions,
-        "cut_by_caps": r.cut, "max_depth": r.max_depth, "wall_s": (r.wall_s * 100.0).round() / 100.0,
+        "cut_by_caps": r.cut, "max_depth": r.max_depth, "transitions_on_recently_reloaded_books": r.after_reload, "wall_s": (r.wall_s * 100.0).round() / 100.0,
         "violating_signatures": r.fails.keys().collect::<Vec<_>>(),
     });
     out.add_u64("states", r.unique as u64);
